@@ -161,7 +161,11 @@ def run(ctx):
             d = rng.randint(1, 8)
             return {"call": "p2l", "p": [hexf(rng.uniform(-1, 1) if (j - d) % 2 == 0 else 0.0) for j in range(d + 1)]}
         if k in ("c2p", "p2c"):
-            return {"call": k, "p": [hexf(rng.uniform(-1, 1)) for _ in range(rng.randint(1, 8))], "kind": rng.choice(["T", "U"])}
+            n = rng.randint(1, 8)
+            if rng.random() < 0.5:      # complex coefficient arrays (the helpers serve real and complex input)
+                return {"call": k, "p": Q.cplx_hex([rng.uniform(-1, 1) for _ in range(n)], [rng.uniform(-1, 1) for _ in range(n)]), "complex": True,
+                        "kind": rng.choice(["T", "U"])}
+            return {"call": k, "p": [hexf(rng.uniform(-1, 1)) for _ in range(n)], "kind": rng.choice(["T", "U"])}
         if k == "response":
             return {"call": "response", "adat": [hexf(rng.uniform(-1, 1)) for _ in range(3)], "phases": [hexf(rng.uniform(-3, 3)) for _ in range(rng.randint(1, 6))],
                     "signal_operator": rng.choice(["Wx", "Wz"])}
